@@ -635,6 +635,41 @@ func main() {
 			}
 		}
 	}
+	if sc.Conf == "joiner" {
+		// a node joins the group later, the way partition.addNode does it: loadRaft(nil) on the new node (empty
+		// log, no peers), a membership change proposed by the leader.  The crash plan names the joiner: it dies
+		// at a boundary of one of its first ready cycles - when all it has made durable is a term / a vote, or
+		// its first entries, or the snapshot it was sent - and restarts with the partition's node list, as the
+		// allocator restarts every replica
+		client(3)
+		for _, n := range w.nodes[len(initial):] {
+			if err := w.boot(n, nil); err != nil {
+				emit(event{"ev": "fatal", "node": n.idx, "msg": "join boot failed: " + err.Error()})
+				continue
+			}
+			for try := 0; try < 50; try++ {
+				if ld := w.waitLeader(2 * time.Second); ld != nil {
+					if g := w.raftOf(ld); g != nil {
+						go g.ProposeJoin(n.id, "")
+					}
+				}
+				joined := false
+				for i := 0; i < 100 && !joined; i++ {
+					time.Sleep(2 * time.Millisecond)
+					if ld := w.leader(); ld != nil {
+						if g := w.raftOf(ld); g != nil {
+							_, joined = g.VerifNode().Status().Progress[n.id]
+						}
+					}
+				}
+				if joined {
+					emit(event{"ev": "joined", "node": n.idx})
+					break
+				}
+			}
+			client(1)
+		}
+	}
 	if sc.Conf == "lagging" {
 		client(3)
 		appliedOf := func(n *node) uint64 {
